@@ -118,6 +118,33 @@ func TestTrace(t *testing.T) {
 		perClass[c]++
 		emit(s[:])
 	}
+	// fresh authenticators: the very first call on a new authenticator is GenerateServerID
+	// (before anybody asked for the public key); the id must already be the digest over
+	// secret and key
+	for i := 0; i < 6; i++ {
+		k2, err := rsa.GenerateKey(rand.Reader, 1024)
+		if err != nil {
+			t.Fatal(err)
+		}
+		a2, err := auth.New(auth.Options{PrivateKey: k2})
+		if err != nil {
+			t.Fatal(err)
+		}
+		s := make([]byte, 16)
+		rng.Read(s)
+		id, err := a2.GenerateServerID(s)
+		if err != nil {
+			t.Fatalf("GenerateServerID: %v", err)
+		}
+		h := sha1.New()
+		h.Write(s)
+		h.Write(a2.PublicKey())
+		d := h.Sum(nil)
+		tw.Emit(tracefmt.Rec{"ev": "id", "digest": tracefmt.Bytes(d), "id": id, "fresh": true})
+		st.Ids++
+		st.Classes[classify(d)]++
+	}
+
 	// concurrent logins: many goroutines ask the same authenticator for server ids at once, in
 	// tight loops over a fixed set of secrets each (hundreds of thousands of calls).  Identical
 	// observations (same secret, same id) are grouped; every DISTINCT observation becomes a trace
